@@ -281,6 +281,23 @@ def targeted_stage_parameters(rnd):
     return f"Select(EventDataset(), lambda {E}: {nxt.format(s=first)})"
 
 
+def targeted_early_binding(rnd):
+    """the early-binding idiom in a NESTED stage lambda: a default that re-uses the enclosing binder's name as its own parameter
+    (lambda j, t=t[1]: ..), the enclosing binder standing for a packaged value of the stage before"""
+    pool = ["e", "t", "k"]
+    E, T = rnd.choice(pool), rnd.choice(pool)
+    J = rnd.choice([x for x in ["j", "q", "w"] if x not in (E, T)])
+    star = rnd.choice(["", "*, ", "/, "])
+    k = rnd.randrange(4)
+    if k == 0:
+        return f"Select(Select(EventDataset(), lambda {E}: ({E}.jets, {E}.met)), lambda {T}: Select({T}[0], lambda {J}, {star}{T}={T}[1]: {J}.pt + {T}))"
+    if k == 1:
+        return f"Select(Select(EventDataset(), lambda {E}: {{'j': {E}.jets, 'm': {E}.met}}), lambda {T}: Select({T}.j, lambda {J}, {star}{T}={T}['m']: {J}.pt + {T}))"
+    if k == 2:
+        return f"Select(EventDataset(), lambda {E}: Select({E}.jets, lambda {J}, {star}{E}={E}.met: {J}.pt + {E}))"
+    return f"Select(Select(EventDataset(), lambda {E}: ({E}.jets, {E}.met, {E}.x)), lambda {T}: Count(Where({T}[0], lambda {J}, {star}{T}=({T}[1], {T}[2]): {J}.pt > {T}[0] + {T}[1])))"
+
+
 def targeted_first(rnd):
     """a variable bound to First(<sequence mentioning a live outer name>) by a called lambda, read by attribute / key / index inside a
     second, lambda-free called lambda whose parameter re-uses that outer name: the First push-through rules re-visit the value"""
@@ -305,7 +322,9 @@ def targeted_first(rnd):
 
 def targeted_capture(rnd):
     k = rnd.random()
-    if k < 0.07:
+    if k < 0.04:
+        return targeted_early_binding(rnd)
+    if k < 0.08:
         return targeted_stage_parameters(rnd)
     if k < 0.15:
         return targeted_functions(rnd)
